@@ -10,6 +10,7 @@ CONSTANTS
   Extra <- Race3
   GFirst = TRUE
   SelDet = FALSE
+  LogOn = TRUE
 VIEW View
 INVARIANT Exclusion
 CHECK_DEADLOCK TRUE
